@@ -120,7 +120,7 @@ func (it *omapIter) next() tuple {
 			j := it.pos
 			it.pos++
 			if !it.m.dead[j] {
-				return tuple{true, it.m.keys[j], it.m.vals[j]}
+				return tuple{true, cloneAgg(it.m.keys[j]), cloneAgg(it.m.vals[j])}
 			}
 		}
 	}
